@@ -344,7 +344,122 @@ def gen_c12_inner(rng):
     return ps.ops
 
 
-def generate(kind, n, seed):
+def gen_c12_dense(rng):
+    """Dense key universe (all strings over a 2-3 letter alphabet up to length 4): every structural case of the
+    radix tree (values on inner nodes, single-child chains, forks below them) arises; multi-write transactions
+    with watches on present/absent keys and prefixes taken before each of them."""
+    import itertools
+    ps = PartScript(rng)
+    alpha = rng.choice([[1, 2], [1, 2], [1, 2, 3], [0, 255]])
+    maxlen = 4 if len(alpha) == 2 else 3
+    universe = [[]] + [list(x) for n in range(1, maxlen + 1) for x in itertools.product(alpha, repeat=n)]
+    t0 = ps.new_tree_id()
+    ps.add(op="new", t=t0, ro=rng.random() < 0.1)
+    head = t0
+    x = ps.new_txn_id()
+    ps.add(op="begin", x=x, t=head, lin=True)
+    for k in rng.sample(universe, rng.randint(3, min(12, len(universe)))):
+        ps.add(op="insert", x=x, k=k, v=rng.randint(1, 9), w=0)
+    head = ps.new_tree_id()
+    ps.add(op="commitnotify", x=x, t=head)
+    for _ in range(rng.randint(3, 7)):
+        for k in rng.sample(universe, rng.randint(3, 7)):
+            r = rng.random()
+            if r < 0.5:
+                ps.add(op="get", s=tree_src(head), k=k, w=ps.new_chan_id())
+            else:
+                f = ps.new_iter_id()
+                ps.add(op="prefix", s=tree_src(head), k=k, f=f, w=ps.new_chan_id())
+        if rng.random() < 0.3:
+            ps.add(op="rootwatch", s=tree_src(head), w=ps.new_chan_id())
+        x = ps.new_txn_id()
+        ps.add(op="begin", x=x, t=head, lin=True)
+        for _ in range(rng.randint(1, 4)):
+            k = rng.choice(universe)
+            r = rng.random()
+            if r < 0.45:
+                ps.add(op="insert", x=x, k=k, v=rng.randint(1, 9), w=ps.new_chan_id() if rng.random() < 0.2 else 0)
+            elif r < 0.55:
+                ps.add(op="modify", x=x, k=k, v=rng.randint(1, 9), w=0)
+            else:
+                ps.add(op="delete", x=x, k=k)
+            if rng.random() < 0.1:
+                f = ps.new_iter_id()
+                ps.add(op="prefix", s=txn_src(x), k=rng.choice(universe), f=f, w=0)
+        r = rng.random()
+        if r < 0.85:
+            nt = ps.new_tree_id()
+            if rng.random() < 0.5:
+                ps.add(op="commitnotify", x=x, t=nt)
+            else:
+                ps.add(op="commit", x=x, t=nt)
+                ps.add(op="notify", x=x)
+            head = nt
+        else:
+            ps.add(op="abandon", x=x)
+    ps.add(op="all", s=tree_src(head))
+    ps.add(op="chans")
+    return ps.ops
+
+
+PAIR_UNIVERSE = [[1], [1, 1], [1, 1, 2, 1], [1, 1, 2, 2], [1, 1, 2, 3], [9]]
+PAIR_WATCH = PAIR_UNIVERSE + [[1, 1, 2], [1, 1, 2, 9], [], [1, 1, 2, 1, 5]]
+
+
+def pairs_script(initial, w1, w2, mode):
+    """Tree holding `initial`; Get and Prefix watches on every key of the universe, on the fork prefix and on
+    absent extensions; then ONE transaction with the two writes w1, w2; commit + notify."""
+    ps = PartScript(random.Random(0))
+    t0 = ps.new_tree_id()
+    ps.add(op="new", t=t0, ro=False)
+    x = ps.new_txn_id()
+    ps.add(op="begin", x=x, t=t0, lin=True)
+    for k in initial:
+        ps.add(op="insert", x=x, k=k, v=1, w=0)
+    head = ps.new_tree_id()
+    ps.add(op="commitnotify", x=x, t=head)
+    for k in PAIR_WATCH:
+        ps.add(op="get", s=tree_src(head), k=k, w=ps.new_chan_id())
+        f = ps.new_iter_id()
+        ps.add(op="prefix", s=tree_src(head), k=k, f=f, w=ps.new_chan_id())
+    x = ps.new_txn_id()
+    ps.add(op="begin", x=x, t=head, lin=True)
+    for (kind, k) in (w1, w2):
+        if kind == "i":
+            ps.add(op="insert", x=x, k=k, v=2, w=0)
+        else:
+            ps.add(op="delete", x=x, k=k)
+    nt = ps.new_tree_id()
+    if mode == 0:
+        ps.add(op="commitnotify", x=x, t=nt)
+    else:
+        ps.add(op="commit", x=x, t=nt)
+        ps.add(op="notify", x=x)
+    ps.add(op="all", s=tree_src(nt))
+    return ps.ops
+
+
+def gen_c12_pairs(n, seed):
+    """Bounded-exhaustive: every initial subset of a 6-key universe with a fork below a valued inner node x
+    every ordered pair of writes in one transaction (sampled down to n when n is smaller than the space)."""
+    import itertools
     rng = random.Random(seed)
-    fn = {"c11": gen_c11, "c12": gen_c12, "c12inner": gen_c12_inner}[kind]
+    writes = [(kd, k) for kd in ("i", "d") for k in PAIR_UNIVERSE + [[1, 1, 2, 9]]]
+    space = []
+    for mask in range(1, 1 << len(PAIR_UNIVERSE)):
+        initial = [PAIR_UNIVERSE[i] for i in range(len(PAIR_UNIVERSE)) if mask >> i & 1]
+        for w1 in writes:
+            for w2 in writes:
+                if w1 != w2:
+                    space.append((initial, w1, w2))
+    if n < len(space):
+        space = rng.sample(space, n)
+    return [pairs_script(i, a, b, rng.randint(0, 1)) for (i, a, b) in space]
+
+
+def generate(kind, n, seed):
+    if kind == "c12pairs":
+        return gen_c12_pairs(n, seed)
+    rng = random.Random(seed)
+    fn = {"c11": gen_c11, "c12": gen_c12, "c12inner": gen_c12_inner, "c12dense": gen_c12_dense}[kind]
     return [fn(rng) for _ in range(n)]
